@@ -63,7 +63,24 @@ def parse_verdict(out):
 KNOWN = os.path.join(VERIF, "known_findings.json")
 
 
-def check_traces(batch_files, timeout=1200, parallel=16, known=KNOWN):
+def merged_known():
+    """known_findings.json plus known_findings.d/*.json merged into one file for TLC
+    (committed files only are read; the merged copy under run/ is scratch)."""
+    import glob
+    with open(KNOWN) as f:
+        doc = json.load(f)
+    for p in sorted(glob.glob(os.path.join(VERIF, "known_findings.d", "*.json"))):
+        with open(p) as f:
+            doc["findings"].extend(json.load(f).get("findings", []))
+    out = os.path.join(RUN, "known_merged_%d.json" % os.getpid())
+    os.makedirs(RUN, exist_ok=True)
+    with open(out, "w") as f:
+        json.dump(doc, f)
+    return out
+
+
+def check_traces(batch_files, timeout=1200, parallel=16, known=None):
+    known = known or merged_known()
     """Validate trace batches against Trace.tla + Props.tla.  Returns (failures, stats);
     failures: list of dict(batch, tid, n, prop, clause)."""
     def one(path):
